@@ -75,6 +75,19 @@ def blocks_of(kind, atoms, mtxs):
         return [[("write", "l"), ("st", o), ("unlockw", "l")] for o in atoms]
     if kind == "wrld":
         return [[("write", "l"), ("ld", o), ("unlockw", "l")] for o in atoms]
+    # RwLock and Mutex nested in both orders (lock-order inversions across the two kinds of lock)
+    if kind == "rdcs":
+        return [[("read", "l"), ("lock", m), ("unlock", m), ("unlockr", "l")] for m in mtxs]
+    if kind == "csrd":
+        return [[("lock", m), ("read", "l"), ("unlockr", "l"), ("unlock", m)] for m in mtxs]
+    if kind == "wrcs":
+        return [[("write", "l"), ("lock", m), ("unlock", m), ("unlockw", "l")] for m in mtxs]
+    if kind == "cswr":
+        return [[("lock", m), ("write", "l"), ("unlockw", "l"), ("unlock", m)] for m in mtxs]
+    if kind == "cstryrd":
+        return [[("lock", m), ("tryread", "l"), ("tunlockr", "l"), ("unlock", m)] for m in mtxs]
+    if kind == "cstrywr":
+        return [[("lock", m), ("trywrite", "l"), ("tunlockw", "l"), ("unlock", m)] for m in mtxs]
     if kind == "tryrd":
         return [[("tryread", "l"), ("tunlockr", "l")]]
     if kind == "trywr":
@@ -113,6 +126,8 @@ def blocks_of(kind, atoms, mtxs):
         return [[("aclone", "A"), ("acount", "A"), ("adrop", "A")]]
     if kind == "park":
         return [[("park", "none")]]
+    if kind == "cspark":     # parks while it holds the mutex
+        return [[("lock", m), ("park", "none"), ("unlock", m)] for m in mtxs]
     raise ValueError(kind)
 
 
